@@ -95,6 +95,11 @@ def iter_state_machine(run, ctx, fn_suffix, label):
             n_ob += 1
             if S.ret_value(p) != "None":
                 viol("nomatch-not-none", arms[0].node, "no match does not end the iteration (yields %s)" % S.ret_value(p))
+            for i in S.assigns_to(p, lambda s_: s_ == POS, cs[0]):
+                node = p.events[i].node
+                pf = S.PathFacts(p.events, i)
+                if not (p.events[i].b == "=" and pf.proves("Gt", H.linear(node["r"]), LEN)):
+                    viol("nomatch-parks-inside", node, "after a search without a match %s is set to %s, which is not beyond len(%s): a caller polling again (Split does) would search once more from there" % (POS, p.events[i].c, TEXT))
         elif arm.startswith("Ok(Some("):
             # O4
             conds = [(i, ev) for i, ev in enumerate(p.events) if ev.kind == "cond" and i > cs[0]]
@@ -305,6 +310,9 @@ def dispatch_rule(run, ctx):
                         run.violation(fam, label, "%s/fancy-no-run" % sp, H.where(a), "%s: Fancy arm should call vm::run exactly once (found %d)" % (sp, len(calls)))
                         continue
                     n_run += 1
+                    for pth in S.paths_of(a["body"]):
+                        if pth.exit in ("fall", "return") and not any(ev.kind == "call" and (ev.b or "").endswith("vm::run") for ev in pth.events):
+                            run.violation(fam, label, "%s/fancy-shortcut" % sp, H.where(a), "%s: the Fancy arm answers %s on a path that never runs the program (a shortcut in one entry point makes it disagree with the others, e.g. for an empty match at the end of the text)" % (sp, (pth.val or "")[:40]))
                     args = [H.canon(x) for x in calls[0]["args"]]
                     want = [binds.get("prog", "?prog"), TEXT, POS, FLG, binds.get("options", "?options")]
                     if args != want:
@@ -318,6 +326,9 @@ def dispatch_rule(run, ctx):
                         run.violation(fam, label, "%s/wrap-no-search" % sp, H.where(a), "%s: Wrap arm does not search with the wrapped regex" % sp)
                         continue
                     n_wrap += 1
+                    for pth in S.paths_of(a["body"]):
+                        if pth.exit in ("fall", "return") and not any(ev.kind == "call" and H.canon(mc[0]) == ev.a for ev in pth.events):
+                            run.violation(fam, label, "%s/wrap-shortcut" % sp, H.where(a), "%s: the Wrap arm answers %s on a path that never searches with the wrapped regex" % (sp, (pth.val or "")[:40]))
                     inp = H.canon(mc[0]["args"][0])
                     if pos_p:
                         want = "regex_automata::Input::new(%s).span(%s..len(%s))" % (TEXT, POS, TEXT)
@@ -459,6 +470,9 @@ def split_rule(run, ctx):
             saw["err"] += 1
             if not H.pat_match("Some(Err({e}))", v or ""):
                 run.violation(fam, label, "err-pass", w, "a search error must be passed through as Some(Err(e)) (found %s)" % v)
+            wr = [ev for ev in p.events if ev.kind == "assign"]
+            if wr:
+                run.violation(fam, label, "err-state", w, "Split::next changes its state (%s) when passing a search error through: the piece after the failed search (the remainder) would be lost or duplicated" % [(e.a, e.c) for e in wr])
     for k, c in saw.items():
         if c < 1:
             run.violation(fam, label, "anchor-missing/" + k, w, "anchor-missing: Split::next path class '%s' not found" % k)
